@@ -4,7 +4,7 @@
    A lazy list object is a cell of a small heap.  A cell built by LazyList(list) is
      Root generated rest          rest = what raw_object (a list iterator) has not yet yielded.
    A cell built by deep_copy(value) = LazyList(itertools.tee(value)[-1]) is
-     View generated parent gpos buf done
+     View generated parent gpos done
    because tee calls iter(value), i.e. value.__iter__(), a generator g over the ORIGINAL:
        yield from self.generated ; i = len(self.generated)
        while self.has_ind(i): yield self[i] ; i += 1
@@ -15,10 +15,10 @@
    do not pull when k < len(generated) and 0 <= k, so both phases are the single rule
        k-th yield of g  =  if parent.has_ind(k) then parent[k] else StopIteration (g is finished),
    gpos = k = number of items g has yielded, done = g has finished.
-   raw_object of the copy is the tee object: it first serves the items a sibling tee object
-   (the `itertools.tee(self.raw_object)[-1]` of `reversed`, which for a tee object is a
-   __copy__ sharing the buffer, NOT a wrapper that advances raw_object) has already pulled
-   from g (buf), then pulls g.  So the copy is a lazy view of the original; nothing is copied.
+   raw_object of the copy is the second tee object; the first one is dropped at once and no
+   other reader of g is ever created (reversed no longer calls tee), so the tee buffer is
+   always empty and next(raw_object) is next(g).  So the copy is a lazy view of the
+   original; nothing is copied.
 
    Each method is transcribed statement by statement.  `None` is the explicit
    out-of-fuel / dangling-cell result; the theorems exclude it. *)
@@ -253,12 +253,20 @@ Section Methods.
     | None => None
     | Some (m, s') => Some (zcount x m, s')
     end.
+
+  (* reversed (a generator function under @lazylist, forced at once):
+       for item in self.listify()[::-1]: yield item *)
+  Definition reversed (fuel : nat) (s : St) : option (list Z * St) :=
+    match listify fuel s with
+    | None => None
+    | Some (m, s') => Some (rev m, s')
+    end.
 End Methods.
 
 (* ---- the heap ------------------------------------------------------------------------ *)
 Inductive cell :=
 | Root (gen rest : list Z)
-| View (gen : list Z) (parent gpos : nat) (buf : list Z) (done : bool).
+| View (gen : list Z) (parent gpos : nat) (done : bool).
 
 (* newest cell first; cell number c is the one with c cells below it *)
 Definition heap := list cell.
@@ -274,7 +282,7 @@ Fixpoint set (h : heap) (c : nat) (y : cell) : heap :=
   | x :: tl => if Nat.eqb c (length tl) then y :: tl else x :: set tl c y
   end.
 Definition cell_gen (x : cell) : list Z :=
-  match x with Root g _ => g | View g _ _ _ _ => g end.
+  match x with Root g _ => g | View g _ _ _ => g end.
 Definition gen_of (c : nat) (h : heap) : list Z :=
   match get h c with Some x => cell_gen x | None => [] end.
 
@@ -291,48 +299,24 @@ Fixpoint next (f : nat) (c : nat) (h : heap) : option (option Z * heap) :=
       | [] => Some (None, h)
       | v :: r' => Some (Some v, set h c (Root (g ++ [v]) r'))
       end
-    | Some (View g p gpos buf done) =>
-      match buf with
-      | v :: b => Some (Some v, set h c (View (g ++ [v]) p gpos b done))
-      | [] =>
-        if done then Some (None, h)
-        else match has_ind heap (next f' p) (gen_of p) (Z.of_nat gpos) h with
+    | Some (View g p gpos done) =>
+      (* next(g), g = parent.__iter__():  if done: StopIteration
+         if not parent.has_ind(gpos): g returns;  item = parent[gpos]; gpos += 1 *)
+      if done then Some (None, h)
+      else match has_ind heap (next f' p) (gen_of p) (Z.of_nat gpos) h with
+           | None => None
+           | Some (false, h1) => Some (None, set h1 c (View g p gpos true))
+           | Some (true, h1) =>
+             match index_nonneg heap (next f' p) (gen_of p) (Z.of_nat gpos) h1 with
              | None => None
-             | Some (false, h1) => Some (None, set h1 c (View g p gpos [] true))
-             | Some (true, h1) =>
-               match index_nonneg heap (next f' p) (gen_of p) (Z.of_nat gpos) h1 with
-               | None => None
-               | Some (v, h2) => Some (Some v, set h2 c (View (g ++ [v]) p (S gpos) [] false))
-               end
+             | Some (v, h2) => Some (Some v, set h2 c (View (g ++ [v]) p (S gpos) false))
              end
-      end
+           end
     end
   end.
 
-(* reversed (a generator function, forced at once):
-     self.generated += list(itertools.tee(self.raw_object)[-1])
-     for item in self.generated[::-1]: yield item
-   Root: raw_object is a list iterator (no __copy__): tee wraps it, listing the second tee
-   object drains raw_object itself.
-   View: raw_object is a tee object: tee returns (raw_object, raw_object.__copy__()); listing
-   the copy reads the shared buffer and then g to its end, the items stay buffered for
-   raw_object, which has NOT moved. *)
-Definition reversed_at (f fuel : nat) (c : nat) (h : heap) : option (list Z * heap) :=
-  match get h c with
-  | None => None
-  | Some (Root g r) => Some (rev (g ++ r), set h c (Root (g ++ r) []))
-  | Some (View g p gpos buf done) =>
-    if done then Some (rev (g ++ buf), set h c (View (g ++ buf) p gpos buf true))
-    else match walk heap (next f p) (gen_of p) fuel (Z.of_nat gpos) None 1 [] h with
-         | None => None
-         | Some (items, h1) =>
-           Some (rev (g ++ buf ++ items),
-                 set h1 c (View (g ++ buf ++ items) p (gpos + length items) (buf ++ items) true))
-         end
-  end.
-
 (* deep_copy: LazyList(itertools.tee(value)[-1]) -- a new cell, g not started *)
-Definition deep_copy (c : nat) (h : heap) : heap := View [] c 0 [] false :: h.
+Definition deep_copy (c : nat) (h : heap) : heap := View [] c 0 false :: h.
 
 (* ---- observations ---------------------------------------------------------------- *)
 Inductive kind :=
@@ -354,7 +338,7 @@ Record op := { target : nat; what : kind }.
 Definition cell_size (x : cell) : nat :=
   match x with
   | Root g r => length g + length r
-  | View g _ _ b _ => length g + length b
+  | View g _ _ _ => length g
   end.
 Fixpoint total (h : heap) : nat :=
   match h with [] => O | x :: tl => cell_size x + total tl end.
@@ -388,7 +372,7 @@ Definition step (h : heap) (o : op) : out * heap :=
     | Some (m, _) => ret OB h (eq_list heap nx g lf m h)
     end
   | KCount x => ret OZ h (count heap nx g lf x h)
-  | KReversed => ret OL h (reversed_at c lf c h)
+  | KReversed => ret OL h (reversed heap nx g lf h)
   | KCopy => (OUnit, deep_copy c h)
   | KListify => ret OL h (listify heap nx g lf h)
   | KHasInd i => ret OB h (has_ind heap nx g i h)
@@ -436,7 +420,7 @@ Definition mask (k : kind) (o : out) : out :=
 Definition den (x : cell) (older : nat -> list Z) : list Z :=
   match x with
   | Root g r => g ++ r
-  | View g p gpos buf done => g ++ buf ++ (if done then [] else skipn gpos (older p))
+  | View g p gpos done => g ++ (if done then [] else skipn gpos (older p))
   end.
 Fixpoint abs (h : heap) (c : nat) : list Z :=
   match h with
@@ -448,14 +432,36 @@ Fixpoint abs (h : heap) (c : nat) : list Z :=
 Fixpoint wf (h : heap) : Prop :=
   match h with
   | [] => True
-  | x :: tl => match x with Root _ _ => True | View _ p _ _ _ => (p < length tl)%nat end /\ wf tl
+  | x :: tl => match x with Root _ _ => True | View _ p _ _ => (p < length tl)%nat end /\ wf tl
   end.
 
 (* observations within the scope of the theorems: a slice step is not 0 (a plain list
-   raises ValueError, LazyList reads `step or 1`); `reversed` is aimed at the root *)
+   raises ValueError, LazyList reads `step or 1`) *)
 Definition op_ok (o : op) : bool :=
   match what o with
   | KSlice _ _ (Some s) => negb (s =? 0)
-  | KReversed => Nat.eqb (target o) 0
   | _ => true
+  end.
+
+(* decidable equality of results, used by the correspondence check; OFuel equals nothing *)
+Definition out_eqb (a b : out) : bool :=
+  match a, b with
+  | OZ x, OZ y => Z.eqb x y
+  | OL x, OL y => list_eqb x y
+  | OB x, OB y => Bool.eqb x y
+  | OStop, OStop | OIndexError, OIndexError | OValueError, OValueError | OUnit, OUnit => true
+  | _, _ => false
+  end.
+Fixpoint outs_eqb (a b : list out) : bool :=
+  match a, b with
+  | [], [] => true
+  | x :: a', y :: b' => out_eqb x y && outs_eqb a' b'
+  | _, _ => false
+  end.
+
+(* the outputs as compared with the plain list: next's value is masked *)
+Fixpoint masked (ops : list op) (outs : list out) : list out :=
+  match ops, outs with
+  | o :: r, x :: xs => mask (what o) x :: masked r xs
+  | _, _ => []
   end.
